@@ -158,6 +158,14 @@ pub fn check_float<I: FloatInner>(vt: &'static Vt<I>, ctx: &Ctx) -> DeclReport {
     if vt.default.is_some() {
         attempts.push(Attempt { entry: "Default".into(), payload: vec![] });
     }
+    if vt.de_in_place.is_some() {
+        let dips: Vec<Attempt> = attempts
+            .iter()
+            .filter(|a| matches!(a.entry.as_str(), "de:Json" | "de:Ron" | "de:MsgPack"))
+            .map(|a| Attempt { entry: a.entry.replace("de:", "dip:"), payload: a.payload.clone() })
+            .collect();
+        attempts.extend(dips);
+    }
     let obtain = |a: &Attempt| -> Result<Option<I>, String> {
         let from_payload = |p: &[u8]| -> I {
             let mut b = [0u8; 8];
@@ -180,6 +188,18 @@ pub fn check_float<I: FloatInner>(vt: &'static Vt<I>, ctx: &Ctx) -> DeclReport {
                 vt.de_value.and_then(|f| f(from_payload(bits), kind.first().copied().unwrap_or(0))).and_then(|r| r.ok())
             }
             "Default" => vt.default.map(|f| f()),
+            // the value an existing (valid) newtype holds after deserialize_in_place, whether that call succeeded or not
+            "dip:Json" | "dip:Ron" | "dip:MsgPack" => {
+                let f = match a.entry.as_str() {
+                    "dip:Json" => Fmt::Json,
+                    "dip:Ron" => Fmt::Ron,
+                    _ => Fmt::MsgPack,
+                };
+                match (vt.de_in_place, crate::props::c04::valid_start(vt)) {
+                    (Some(dip), Some(base)) => dip(base, f, &a.payload).map(|(_ok, after)| after),
+                    _ => None,
+                }
+            }
             _ => None,
         })
     };
